@@ -286,8 +286,43 @@ def gen_struct(rng, tier, dist, n):
             out.append("%s %d %d %d 1 %s" % (kind, ll, prec, compress, ";".join(vals) if vals else "-"))
     return out
 
+# lengths of constant runs: every digit pattern of the "<n>x" the printer writes (a zero digit inside:
+# 10 20 30 100 101 105 110), the threshold region 5..9, and 11 12 99 112
+RUN_LENGTHS = [10, 20, 30, 100, 101, 105, 110, 5, 6, 7, 8, 9, 11, 12, 99, 112]
+
+def gen_runlengths(rng, dist, rounds):
+    """constant runs of every length of RUN_LENGTHS - at top level, inside an array and in a message -
+    in EVERY run (not left to chance)"""
+    out = []
+    for _ in range(rounds):
+        for m in RUN_LENGTHS:
+            for place in ("top", "array", "message"):
+                k = rng.choice("ihcTFNIsSfdrm")
+                v = g_scalar(rng, k)
+                if v in ("f:80000000", "d:8000000000000000") or (k in "sS" and "2e2e2e" in v):
+                    v = "i:64"
+                run = [v] * m
+                pre = [g_scalar(rng, rng.choice("iTNs"))] if rng.random() < 0.5 else []
+                post = [g_scalar(rng, rng.choice("ihTN"))] if rng.random() < 0.5 else []
+                pre = [x for x in pre if x != v and "2e2e2e" not in x]
+                post = [x for x in post if x != v]
+                ll = rng.choice([20, 40, 80, 120])
+                prec = rng.choice([0, 2, 6])
+                dist["runlength-%s" % place] = dist.get("runlength-%s" % place, 0) + 1
+                if place == "array":
+                    if k in "NI":
+                        run = ["i:7"] * m
+                    vals = pre + ["a:%d:%d" % (ord(run[0][0]), m)] + run + post
+                    out.append("pp %d %d 1 1 %s" % (ll, prec, ";".join(vals)))
+                elif place == "message":
+                    out.append("pm %d %d 1 1 %s %s" % (ll, prec, ";".join(pre + run + post), b"/part0/kit".hex()))
+                else:
+                    out.append("pp %d %d 1 1 %s" % (ll, prec, ";".join(pre + run + post)))
+    return out
+
 def gen(rng, tier, dist):
-    return gen_scalar(rng, tier, dist) + gen_struct(rng, tier, dist, 2500 if tier == "quick" else 120000)
+    return (gen_runlengths(rng, dist, 1 if tier == "quick" else 20) + gen_scalar(rng, tier, dist)
+            + gen_struct(rng, tier, dist, 2500 if tier == "quick" else 120000))
 
 def gen_scalar(rng, tier, dist):
     n = 3000 if tier == "quick" else 150000
